@@ -358,9 +358,12 @@ class Monitors(Listener):
             committed = sum(o.ingest_data_rate * o.duration for o in tel.observations
                             if o.name in self.admit and o not in hot.observations["finished"])
             over = committed > hot.total_capacity and hot.current_capacity < 0
+            # ... although every admission did see room for the whole volume at its own moment
+            saw_room = all(a[0]["vol"] <= a[0]["hot"] for a in self.admit.values() if a)
             self.viol("C07", "hot-free-space-out-of-range", "%s of %s (committed volumes %s)" % (
                 fr(hot.current_capacity), fr(hot.total_capacity), fr(committed)),
-                sig="hot-free-space-out-of-range" + (":overcommit" if over else ""))
+                sig="hot-free-space-out-of-range" + (":overcommit" if over else "") +
+                    (":admissions-saw-room" if saw_room else ""))
         if cold.current_capacity < 0 or cold.current_capacity > cold.total_capacity:
             self.viol("C07", "cold-free-space-out-of-range", "%s of %s" % (fr(cold.current_capacity), fr(cold.total_capacity)))
         if self.tier_moves == 0:
